@@ -1457,6 +1457,7 @@ impl Linearizer {
         constraints: Vec<Constraint>,
         mut domain: IndexMap<String, DomainVariable>,
     ) -> Self {
+        let constraints = normalize_constraints(constraints);
         let bounds = BoundsAnalyzer::analyze(&domain, &constraints);
         bounds.apply_to_domain(&mut domain);
         Self::new_from_with_bounds(constraints, domain, bounds)
@@ -1555,6 +1556,7 @@ impl Linearizer {
     /// * `Err(LinearizationError)` - If linearization fails
     pub fn linearize(model: Model) -> Result<LinearModel, LinearizationError> {
         let (objective, constraints, mut domain) = model.into_components();
+        let constraints = normalize_constraints(constraints);
         let bounds = BoundsAnalyzer::analyze(&domain, &constraints);
         bounds.apply_to_domain(&mut domain);
         let mut context = Linearizer::new_from_with_bounds(constraints, domain, bounds);
@@ -1652,6 +1654,25 @@ impl Linearizer {
             domain,
         ))
     }
+}
+
+/// Bound inference recognises constant coefficients by the shape of the
+/// expression, so it has to see the constraints in the normal form the lowering
+/// works on: otherwise `-2 * x <= 4` and `-2x <= 4` derive different bounds.
+fn normalize_constraints(constraints: Vec<Constraint>) -> Vec<Constraint> {
+    constraints
+        .into_iter()
+        .map(|constraint| {
+            let is_logic_assertion = constraint.is_logic_assertion();
+            let (lhs, op, rhs, name) = constraint.into_parts();
+            let lhs = lhs.flatten().simplify();
+            if is_logic_assertion {
+                Constraint::new_logic_assertion(lhs, name)
+            } else {
+                Constraint::new(lhs, op, rhs.flatten().simplify(), name)
+            }
+        })
+        .collect()
 }
 
 fn extract_coeffs(exp: &IndexMap<String, f64>, vars: &IndexMap<String, usize>) -> Vec<f64> {
